@@ -147,9 +147,11 @@ def check_case(case):
         confs = [(sz, None, None) for sz in case["sizes"]] + [(20, n, uas[n]) for n in case["uas"]]
         from localcider.sequenceParameters import SequenceParameters as SP0
         shared = SP0(seq)     # ONE live object answers every configuration of this word (locality uses fresh objects)
+        wins = range(1, N + 2) if not case.get("medium") else sorted({1, 3, 5, 10, N // 2, N, N + 1})
+        steps = range(1, N + 1) if not case.get("medium") else (1, 2, 7)
         for size, ua_name, ua in confs:
-            for w in range(1, N + 2):
-                for s in range(1, N + 1):
+            for w in wins:
+                for s in steps:
                     for typ in TYPES:
                         for ws in (range(1, 7) if typ == "LC" else (3,)):
                             calls += check_call(seq, typ, size, ua_name, ua, w, s, ws, case, out, shared)
@@ -276,6 +278,9 @@ def run(tier, seed, t0):
             cases.append({"kind": "word", "seq": w, "sizes": sizes, "uas": uas})
     for N in range(1, NL + 1):
         cases.append({"kind": "lattice", "N": N})
+    # medium-size irregular words: chunks of a de Bruijn sequence (every 5-residue window over three letters occurs)
+    for w in spaces.window_complete_chunks("LKF", 5, (31,) if tier == "quick" else (19, 31, 53)):
+        cases.append({"kind": "word", "seq": w, "sizes": [2, 3, 20] if tier == "quick" else sizes, "uas": uas[:1], "medium": True})
     cases.append({"kind": "long-then-short", "L": 130, "sizes": [2, 3, 4, 6] if tier == "quick" else list(T.SIZES),
                   "words": ["LKF", "LKFF", "KFLKF", "ASTDE", "FFKL"]})
     cases.sort(key=lambda c: -(len(c["seq"]) ** 3 if "seq" in c else (c["N"] ** 2 / 8 if "N" in c else 10 ** 6)))
